@@ -103,7 +103,8 @@ func (fc *fnCtx) val(st *State, v ssa.Value) Val {
 		// address of a package-level variable
 		name := "global." + v.Pkg.Pkg.Name() + "." + v.Name()
 		elem := v.Type().(*types.Pointer).Elem()
-		return Val{S: SAddr, A: &Addr{Kind: "global", Region: name, Sort: sortOfType(elem), GT: elem}, GT: v.Type()}
+		ga := &Addr{Kind: "global", Region: name, Sort: sortOfType(elem), GT: elem}
+		return Val{T: fc.addrTerm(st, ga), S: SAddr, A: ga, GT: v.Type()}
 	case *ssa.Builtin:
 		return Val{T: "nil", S: SU}
 	case *ssa.FreeVar:
@@ -753,6 +754,9 @@ func (fc *fnCtx) callWrites(st *State, fr *frame, call *ssa.Call, inLoop func(ss
 		}
 		return
 	}
+	if spec.flags["syncwrites"] {
+		return // registry accessors: nothing a caller can observe changes (see applySpec)
+	}
 	// receiver and arguments defined outside the loop can be evaluated now; the others are unknown
 	var recv *Val
 	var argVals []ssa.Value
@@ -1381,6 +1385,11 @@ func (fc *fnCtx) execSimple(st *State, fr *frame, ins ssa.Instruction, k func(*S
 			st.ghost = map[string]string{}
 		}
 		fc.closures[c.T] = &closureInfo{fn: fn, binds: binds}
+		if strings.HasSuffix(fn.Name(), "$bound") && len(binds) == 1 && binds[0].S == SU {
+			// a method value: boundrecv(f) is the receiver whose state the function may use
+			fc.declareFun(st, "boundrecv", "(U) U")
+			st.pc = append(st.pc, eq(app("boundrecv", c.T), binds[0].T))
+		}
 	case *ssa.TypeAssert:
 		fc.typeAssert(st, fr, ins)
 	case *ssa.Extract:
@@ -1406,6 +1415,8 @@ func (fc *fnCtx) execSimple(st *State, fr *frame, ins ssa.Instruction, k func(*S
 		k := fc.box(st, fc.val(st, ins.Key))
 		v := fc.box(st, fc.val(st, ins.Value))
 		fc.runtimeCheck(st, fr, ins, "nilmap", eq(m.T, "nil"))
+		fc.checkMapGuard(st, fr, ins, m, true)
+		fc.checkWrite(st, fr, fc.instrLabel(fr, ins), "map.dom", m.T)
 		fc.mapStore(st, m.T, k.T, v.T)
 	case *ssa.Range:
 		fc.rangeInit(st, ins)
@@ -1571,6 +1582,7 @@ func (fc *fnCtx) storeTo(st *State, fr *frame, ins ssa.Instruction, a Val, v Val
 			}
 			r := fc.region(st, ad.Region, regionArraySort(ad.Sort))
 			fc.checkGuarded(st, fr, ins, ad, true)
+			fc.checkWrite(st, fr, fc.instrLabel(fr, ins), ad.Region, ad.Base)
 			fc.setRegion(st, ad.Region, regionArraySort(ad.Sort), store(r, ad.Base, v.T))
 			return
 		case "elem":
@@ -1579,9 +1591,11 @@ func (fc *fnCtx) storeTo(st *State, fr *frame, ins ssa.Instruction, a Val, v Val
 			}
 			_, rs := elemsRegion(ad.Sort)
 			r := fc.region(st, ad.Region, rs)
+			fc.checkWrite(st, fr, fc.instrLabel(fr, ins), ad.Region, ad.Base)
 			fc.setRegion(st, ad.Region, rs, store(r, ad.Base, store(sel(r, ad.Base), ad.Idx, v.T)))
 			return
 		case "global":
+			fc.checkGlobalAccess(st, fr, ins, ad, true)
 			fc.region(st, ad.Region, ad.Sort.SMT())
 			fc.setRegion(st, ad.Region, ad.Sort.SMT(), v.T)
 			return
@@ -1619,7 +1633,17 @@ func (fc *fnCtx) unop(st *State, fr *frame, ins *ssa.UnOp) {
 		if x.A != nil && x.A.Kind == "field" {
 			fc.checkGuarded(st, fr, ins, x.A, false)
 		}
+		gmutex := ""
+		if x.A != nil && x.A.Kind == "global" {
+			gmutex = fc.checkGlobalAccess(st, fr, ins, x.A, false)
+		}
 		v := fc.loadFrom(st, x, ins.Type())
+		if gmutex != "" && v.S == SU {
+			if st.ghost == nil {
+				st.ghost = map[string]string{}
+			}
+			st.ghost["guard:"+v.T] = gmutex
+		}
 		d := fc.define(st, ins, v.T)
 		fc.assumeTyped(st, d)
 	case token.NOT:
